@@ -419,6 +419,8 @@ def draw_case(d, kinds=None, *, degenerate=False, general_position=False,
     else:
         lead = tuple(d.int(1, 3) for _ in range(d.int(0, max_lead)))
     case.lead = lead
+    if kind == 'cacgmm' and not allow_num_classes:
+        min_K = max(min_K, 2)   # the array start asserts K > 1
     case.K = d.int(max(min_K, 2), min(max_K, 4)) if want_aligner else \
         d.int(min_K, max_K)
     maxD = min(max_D, cbmm_max_D) if kind == 'cbmm' else max_D
@@ -509,7 +511,7 @@ def draw_case(d, kinds=None, *, degenerate=False, general_position=False,
             o['hermitize'] = d.bool()
             o['covariance_norm'] = d.choice(['eigenvalue', 'trace', False])
             o['affiliation_eps'] = d.choice([0.0, 1e-10, 1e-3])
-            o['eigenvalue_floor'] = d.choice([1e-10, 1e-10, 1e-6, 1e-3])
+            o['eigenvalue_floor'] = d.choice([1e-10, 1e-10, 1e-6, 1e-3, 3e-2])
         if kind == 'cbmm':
             o['affiliation_eps'] = d.choice([0.0, 1e-10])
         if kind in ('gmm', 'gcacgmm'):
@@ -688,9 +690,8 @@ def ill_conditioned(model, case):
     kind = case.kind
     if kind in ('cacgmm', 'gcacgmm', 'vmfcacgmm'):
         lam = np.asarray(model.cacg.covariance_eigenvalues)
-        floor = case.opts.get('eigenvalue_floor', 1e-10)
         mx = lam.max(axis=-1, keepdims=True)
-        if np.any(lam <= floor * mx * (1 + 1e-6)) or np.any(lam < 1e-8 * mx):
+        if np.any(lam < 1e-7 * mx):
             return True
     if kind == 'cwmm':
         c = np.asarray(model.complex_watson.concentration)
